@@ -160,6 +160,42 @@ def run_wellformed(c):
         if abs(mpmath.mpf(wl) - total) > mpmath.mpf(1e-9) * (abs(total) + mpmath.mpf(float(scale)) * mpmath.mpf(1e-3)) + noise:
             raise Violation("wire_length = %r, definition gives %s for nets %s" % (wl, mpmath.nstr(total, 15), model["nets"]), "wire-length")
         cls.append("wire-length")
+        if c.get("relocate") and not any(m["kind"] == "terminal" for m in mods):
+            # what a placement stage does next: default squares for the modules without rectangles, new centres for them through the
+            # setter, and the wire length is read again - it is the one of the centres the modules have NOW, and reading it moves nothing
+            from frame.geometry.geometry import Point
+            try:
+                nl.create_squares()
+            except Exception:
+                nl = None
+            if nl is not None:
+                now = dict(centres)
+                for src, m in zip(mods, nl.modules):
+                    if src["kind"] == "soft" and not src["rects"]:
+                        nx, ny = m.center.x + 3 * float(Fr(unit)), m.center.y + float(Fr(unit))
+                        m.center = Point(nx, ny)
+                        now[src["name"]] = (Fr(nx), Fr(ny))
+                if now != centres:
+                    total2 = mpmath.mpf(0)
+                    for e in model["nets"]:
+                        pts = [now[n] for n in e["m"]]
+                        mx = sum(p[0] for p in pts) / len(pts)
+                        my = sum(p[1] for p in pts) / len(pts)
+                        s2 = mpmath.mpf(0)
+                        for p in pts:
+                            d2 = (p[0] - mx) ** 2 + (p[1] - my) ** 2
+                            s2 += mpmath.sqrt(mpmath.mpf(d2.numerator) / mpmath.mpf(d2.denominator))
+                        total2 += s2 * mpmath.mpf(G.exp_weight(e))
+                    wl2 = nl.wire_length
+                    if abs(mpmath.mpf(wl2) - total2) > mpmath.mpf(1e-9) * (abs(total2) + mpmath.mpf(float(scale)) * mpmath.mpf(1e-3)) + noise + mpmath.mpf(1e-12) * abs(total2):
+                        raise Violation("after create_squares() and new centres for the modules without rectangles, wire_length = %r; the centres and "
+                                        "nets give %s (it was %s before the centres were changed)" % (wl2, mpmath.nstr(total2, 15), mpmath.nstr(total, 15)),
+                                        "wire-length-after-relocation")
+                    for src, m in zip(mods, nl.modules):
+                        if src["kind"] == "soft" and not src["rects"] and (Fr(m.center.x), Fr(m.center.y)) != now[src["name"]]:
+                            raise Violation("reading wire_length moved the centre of %s from %s to %s" % (
+                                src["name"], tuple(float(v) for v in now[src["name"]]), m.center), "wire-length-moves-centres")
+                    cls.append("wire-length-after-squares-and-new-centres")
     multi = any(len(m["rects"]) >= 2 for m in mods)
     hyper = any(len(e["m"]) >= 3 for e in model["nets"])
     if any(m["kind"] == "soft" and not m["area_scalar"] for m in mods):
@@ -337,7 +373,7 @@ def run_illformed(c):
 @st.composite
 def well_s(draw):
     return dict(model=draw(G.netlist_model(max_modules=6)), form=draw(st.sampled_from(["tree", "tree", "text", "file"])), twice=draw(st.booleans()),
-                dup=[draw(_i(0, 5)), draw(_i(0, 5)), draw(_i(0, 5))] if draw(_i(0, 3)) == 0 else None)
+                dup=[draw(_i(0, 5)), draw(_i(0, 5)), draw(_i(0, 5))] if draw(_i(0, 3)) == 0 else None, relocate=draw(st.booleans()))
 
 
 @st.composite
@@ -349,6 +385,7 @@ def ill_s(draw):
 def subchecks():
     return [
         Sub("wellformed", run_wellformed, strategy=well_s(), n_quick=5000, n_thorough=120000, fuzz_thorough=2500,
-            required=("wire-length", "region-areas", "flat-rectangle", "centre-overridden-by-rectangles", "text", "tree", "file", "tree-loaded-twice", "soft-module-lists-a-rectangle-twice")),
+            required=("wire-length", "region-areas", "flat-rectangle", "centre-overridden-by-rectangles", "text", "tree", "file", "tree-loaded-twice", "soft-module-lists-a-rectangle-twice",
+                      "wire-length-after-squares-and-new-centres")),
         Sub("illformed", run_illformed, strategy=ill_s(), n_quick=5000, n_thorough=120000, fuzz_thorough=2500, required=tuple(DEFECTS)),
     ]
